@@ -45,6 +45,29 @@ Definition inputs_changed (recs : list (fhash * option cfile)) : bool :=
 Definition inputs_reported (recs : list (fhash * option cfile)) : bool :=
   inputs_reported_gen (map (fun r => inp_entry (fst r) (snd r)) recs).
 
+(* ---------- a path that is no longer a readable regular file ---------- *)
+(* PUnreadable: a directory, or a file that cannot be opened: FileHash.refreshed raises HashFailedError /
+   OSError.  None = the exception leaves compute_inp_hashes and fails the whole hash thread (the code
+   before 9b8c8cd, finding D44: step FAILED, nothing flagged, no drain); Some e = the path is reported
+   with entry e (generated: unreadable_input_reported, inp_entry_unreadable_gen). *)
+Inductive pathstate := PFile (d : option cfile) | PUnreadable.
+
+Definition inp_entry_path (old : fhash) (p : pathstate) : option (bool * N * bool) :=
+  match p with
+  | PFile d => Some (inp_entry old d)
+  | PUnreadable =>
+      if unreadable_input_reported
+      then Some (inp_entry_unreadable_gen (negb (fh_eqb fh_unknown_gen old)) (is_unknown_gen old))
+      else None
+  end.
+
+(* compute_inp_hashes on one path of each kind, as the implementation showed it *)
+Definition unreadable_case (old : fhash) (raised differs : bool) (msg : N) (err : bool) : bool :=
+  match inp_entry_path old PUnreadable with
+  | None => raised
+  | Some e => negb raised && Bool.eqb (fst (fst e)) differs && (snd (fst e) =? msg) && Bool.eqb (snd e) err
+  end.
+
 (* ---------- what the property is about: content, size and mode ---------- *)
 (* the "hash code" of model/Fresh.v: what FileHash equality is meant to compare *)
 Definition code_of_hash (h : fhash) : N * N * N := (fh_digest h, fh_mode h, fh_size h).
